@@ -185,6 +185,8 @@ class FunctionTranslator:
         self.inlining = []      # stack of nested functions being inlined (recursion guard)
         self.ret_stack = [0]
         self.callinfo = {}
+        self.weak = 0           # > 0 inside a recursive nested function: assignments never kill
+        self.inline_rv = {}
 
     # ---- variables and scopes
     # Every value variable v has a shadow variable ds(v): what `.dataset` of the value denotes.  Parameter i is the
@@ -493,6 +495,19 @@ class FunctionTranslator:
                 return f.attr in PANDAS_PRODUCERS and self.frame_producing_at(f.value, stmt, depth + 1)
         return False
 
+    def is_new_pandas_object(self, name):
+        """the nearest dominating binding of the name is `<e>.iloc[..]`, `<e>.loc[..]` or a pandas-producing method call"""
+        if len(self.scopes) != 1 or self.cur_stmt is None or id(self.cur_stmt) not in self.stmt_pos or name not in self.scopes[0]:
+            return False
+        r = self.reaching(name, self.cur_stmt)
+        if r is None:
+            return False
+        e = r[0]
+        if isinstance(e, ast.Subscript) and isinstance(e.value, ast.Attribute) and e.value.attr in ('iloc', 'loc'):
+            return True
+        return (isinstance(e, ast.Call) and isinstance(e.func, ast.Attribute)
+                and e.func.attr in (PANDAS_PRODUCERS - {'replace', 'apply', 'map', 'agg', 'aggregate', 'transform'}))
+
     def returns_frame(self):
         """every `return` of the function (nested functions excluded) gives a pandas object (or None)"""
         fn = self.node
@@ -565,23 +580,32 @@ class FunctionTranslator:
         if not owners:
             return self.op_alias(out, node)
         v = self.tmp()
-        out.append(f'(Op (Move {v} {vl(sorted({self.ds(w) for w in owners}))}))')
+        out.append(f'(Op (Move {v} {vl(sorted({self.ds(w) for w in owners}))}))')      # v is a new temporary
         out.append(f'(Op (Move {self.ds(v)} []))')
         return [v]
 
     def raw_move(self, out, v, ws):
+        ws = list(ws) + ([v] if self.weak else [])
         out.append(f'(Op (Move {v} {vl(sorted(set(ws)))}))')
 
     def op_move(self, out, v, ws):
+        ws = list(ws) + ([v] if self.weak else [])
         out.append(f'(Op (Move {v} {vl(sorted(set(ws)))}))')
         out.append(f'(Op (Move {self.ds(v)} {vl(sorted({self.ds(w) for w in ws}))}))')
 
     def op_copy(self, out, v, ws):
+        if self.weak:
+            t = self.tmp()
+            out.append(f'(Op (Copy {t} {vl(sorted(set(ws)))}))')
+            out.append(f'(Op (Move {v} {vl(sorted({v, t}))}))')
+            out.append(f'(Op (Move {self.ds(v)} {vl(sorted({self.ds(w) for w in list(ws) + [v]}))}))')
+            return
         out.append(f'(Op (Copy {v} {vl(sorted(set(ws)))}))')
         out.append(f'(Op (Move {self.ds(v)} {vl(sorted({self.ds(w) for w in ws}))}))')
 
     def set_dataset_field(self, out, v, ws):
         """the value in v is a model whose dataset is (one of) ws"""
+        ws = list(ws) + ([self.ds(v)] if self.weak else [])
         out.append(f'(Op (Move {self.ds(v)} {vl(sorted(set(ws)))}))')
 
     def op_write(self, out, definite, ws, node, what, attr=False):
@@ -1006,10 +1030,19 @@ class FunctionTranslator:
     def inline_nested(self, name, actual, out, node, as_value=False, bound=None):
         fn = self.nested_of(name)
         if fn in self.inlining:
-            self.refuse(node, f'recursive nested function {name}')
+            # a recursive call: the body (translated once, in weak mode, under Star) runs again with its parameters
+            # ALSO bound to these arguments; every activation shares the variables, none of them is ever killed
+            if actual is None and bound is None:
+                bound = self.all_scope_vars()
+            self.bind_params(fn.args, actual, bound, out, node)
+            return [self.inline_rv[id(fn)]]
         if actual is None and bound is None:
             bound = self.all_scope_vars()
+        recursive = any(isinstance(c, ast.Call) and isinstance(c.func, ast.Name) and c.func.id == fn.name
+                        for st_ in fn.body for c in ast.walk(st_))
         self.inlining.append(fn)
+        if recursive:
+            self.weak += 1
         inner = []
         # the nested function sees the scopes that were active where it was DEFINED
         saved = self.scopes
@@ -1018,11 +1051,16 @@ class FunctionTranslator:
         self.bind_params(fn.args, actual, bound, inner, node)
         rv = self.tmp()
         self.op_move(inner, rv, [])
+        self.inline_rv[id(fn)] = rv
         self.ret_stack.append(rv)
         inner.append(self.block(fn.body))
         self.ret_stack.pop()
         self.scopes = saved
         self.inlining.pop()
+        if recursive:
+            self.weak -= 1
+            out.append(Star(Part(Seq(inner))))
+            return [rv]
         if as_value:
             out.append(Star(Part(Seq(inner))))
         else:
@@ -1042,6 +1080,11 @@ class FunctionTranslator:
             base = self.names(t.value, out)
             if isinstance(t, ast.Subscript):
                 self.names(t.slice, out)
+            if (isinstance(t, ast.Attribute) and t.attr in ('index', 'columns', 'name') and isinstance(t.value, ast.Name)
+                    and self.is_new_pandas_object(t.value.id)):
+                # s = <frame>.iloc[...] / .loc[...] / <pandas-producing method>(...) is a NEW pandas object: replacing one of
+                # its axis / name attributes changes that object only, never the frame it was taken from
+                return
             if isinstance(t, ast.Attribute) and t.attr in DATASET_ATTRS:
                 # obj.dataset = v: the object's dataset field (its shadow variable), not retained in the object's reach
                 if not (isinstance(t.value, ast.Name) and t.value.id == 'self' and self.cls is not None):
@@ -1505,6 +1548,25 @@ def generate(repo_src, extra_sources=None):
                     tools_roots.append(i)
                     break
     lines.append('Definition tools_functions : list N := ' + vl(tools_roots) + '.')
+    # callees-first order for the Gauss-Seidel search of the summary table (only a search order)
+    import re as _re
+    callees = [sorted({int(x) for x in _re.findall(r'\(Call \d+ \d+ (\d+) ', f['body'])}) for f in fns]
+    seen_, order_ = set(), []
+    for root in range(len(fns)):
+        if root in seen_:
+            continue
+        stack = [(root, iter(callees[root]))]
+        seen_.add(root)
+        while stack:
+            node_, it_ = stack[-1]
+            nxt_ = next((c for c in it_ if c not in seen_ and c < len(fns)), None)
+            if nxt_ is None:
+                order_.append(node_)
+                stack.pop()
+            else:
+                seen_.add(nxt_)
+                stack.append((nxt_, iter(callees[nxt_])))
+    lines.append('Definition solve_order : list nat := [' + ';'.join(str(i) for i in order_) + ']%nat.')
     meta = {
         'functions': [{'id': i, 'module': f['module'], 'qualname': f['qualname'], 'line': f['line'],
                        'params': f['params'], 'arity': f['arity']} for i, f in enumerate(fns)],
